@@ -110,7 +110,8 @@ class MemTransport(asyncio.Transport):
 
 ERR = {"ClientResponseError": "http", "ServerDisconnectedError": "disconnected", "ClientOSError": "os",
        "ClientPayloadError": "payload", "ClientConnectionResetError": "reset", "ClientConnectionError": "connclosed",
-       "TimeoutError": "timeout", "CancelledError": "cancelled", "RuntimeError": "runtime"}
+       "TimeoutError": "timeout", "CancelledError": "cancelled", "RuntimeError": "runtime",
+       "SocketTimeoutError": "socktimeout"}
 
 
 def err_name(e):
@@ -305,7 +306,8 @@ def run_scenario(cfg, next_op, keyparams):
             else:
                 kw["keepalive_timeout"] = cfg["keepalive"] * TICK
             R.conn = MemConnector(**kw)
-            tmo = aiohttp.ClientTimeout(total=(cfg["total"] * TICK) if cfg["total"] else None)
+            tmo = aiohttp.ClientTimeout(total=(cfg["total"] * TICK) if cfg["total"] else None,
+                                        sock_read=(cfg["sockRead"] * TICK) if cfg.get("sockRead") else None)
             R.session = aiohttp.ClientSession(connector=R.conn, timeout=tmo)
             try:
                 while True:
